@@ -235,10 +235,14 @@ def e2e_case(draw):
         kind = 'damaged-run'
     if draw(st.integers(0, 5)) == 0:
         text, _ = break_text(draw, text)
+    if draw(st.booleans()):
+        # non-ASCII text (legal in literals, quoted symbols and comments) travels to the workers
+        text = '; \u00fcnic\u00f6d\u00e9 \u2713\n' + text + '(assert (= "\u00fc\u00f1 \U0001f600" |caf\u00e9 \u65e5\u672c|))\n'
+        ops = list(ops) + ['non-ascii']
     sp = draw(gen_run.spec_for(text, kind=draw(st.sampled_from(['hash', 'mixed', 'monotone']))))
     # 'bal' is not monotone under paren damage; keep specs simple
     opts = dict(strategy=draw(st.sampled_from(['ddmin', 'hierarchical', 'hybrid'])),
-                jobs=draw(st.sampled_from([1, 1, 2])), timeout=30)
+                jobs=draw(st.sampled_from([1, 2, 3])), timeout=30)
     c = dict(kind=kind, text=text, spec=sp, opts=opts, ops=ops)
     if kind == 'usage':
         c['usage'] = draw(st.sampled_from(USAGE))
